@@ -353,12 +353,13 @@ func TestVfReplay_C12(t *testing.T) {
 		Ops      []vfAllocOp   `json:"ops"`
 		Progs    [][]vfAllocOp `json:"progs"`
 		Procs    int           `json:"procs"`
+		Warmup   []int         `json:"warmup"`
 	}
 	if !vfLoadReplay(t, &raw) {
 		return
 	}
 	if raw.Progs != nil {
-		c := &vfAllocConc{InitSize: raw.InitSize, Progs: raw.Progs, Procs: raw.Procs}
+		c := &vfAllocConc{InitSize: raw.InitSize, Progs: raw.Progs, Procs: raw.Procs, Warmup: raw.Warmup}
 		for i := 0; i < 200; i++ {
 			if _, sig, msg := vfRunAllocConc(c); sig != "" {
 				t.Fatalf("%s", vfFail("C12", "replay", sig, c, "%s", msg))
@@ -382,6 +383,7 @@ func TestVfReplay_C12(t *testing.T) {
 // ---- concurrent -------------------------------------------------------------
 
 type vfAllocConc struct {
+	Warmup   []int         `json:"warmup,omitempty"` // sequential allocations, then Reset, before the goroutines start (a recycled allocator)
 	InitSize int           `json:"init_size"`
 	Procs    int           `json:"procs"`
 	Progs    [][]vfAllocOp `json:"progs"`
@@ -405,6 +407,15 @@ func vfRunAllocConc(c *vfAllocConc) (st vfConcStats, sig, msg string) {
 	}
 	a := NewAllocator(c.InitSize, "vfc")
 	defer a.Release()
+	if len(c.Warmup) > 0 {
+		for _, n := range c.Warmup {
+			b := a.Allocate(n)
+			for i := range b {
+				b[i] = 0xEE
+			}
+		}
+		a.Reset()
+	}
 	var clock uint64
 	var wg sync.WaitGroup
 	recs := make([][]vfConcRec, len(c.Progs))
@@ -533,6 +544,11 @@ func TestVf_C12_Conc(t *testing.T) {
 	rapid.Check(t, func(t *rapid.T) {
 		c := &vfAllocConc{InitSize: rapid.SampledFrom([]int{512, 512, 512, 1024, 4096}).Draw(t, "init")}
 		c.Procs = rapid.SampledFrom([]int{2, 4, 8, 16}).Draw(t, "procs")
+		if rapid.Bool().Draw(t, "recycled") {
+			for i, n := 0, rapid.IntRange(2, 12).Draw(t, "nwarm"); i < n; i++ {
+				c.Warmup = append(c.Warmup, rapid.IntRange(100, 3000).Draw(t, "warm"))
+			}
+		}
 		g := rapid.IntRange(2, 32).Draw(t, "goroutines")
 		for i := 0; i < g; i++ {
 			n := rapid.IntRange(1, 40).Draw(t, "len")
@@ -582,6 +598,9 @@ func TestVf_C12_Conc(t *testing.T) {
 			}
 		}
 		cl := []string{"concurrent", fmt.Sprintf("conc:goroutines=%d-%d", (g/8)*8, (g/8)*8+7)}
+		if len(c.Warmup) > 0 {
+			cl = append(cl, "conc:recycled-allocator(grown,Reset)")
+		}
 		if st.chunkSwitches >= 2 {
 			cl = append(cl, "conc:>=2-chunk-switches")
 		}
